@@ -181,6 +181,11 @@ def calmOp (C : Cls) (o : Op) : Bool := (C.sig o.m).sticky.isNone || !o.flag
 /-- no call of the history sets a register (always true for a `clean` class) -/
 def calm (C : Cls) (ops : List Op) : Bool := ops.all (calmOp C)
 
+/-- a reporting / diagnostic / plotting call (`summary`, `run_diagnostics`, `positivity`, `plot_*`, …): the table gives
+    its method no slot, it is not a fit and it sets no register -/
+def observer (C : Cls) (o : Op) : Bool :=
+  (C.sig o.m).writes.isNone && !(C.sig o.m).isFit && (C.sig o.m).sticky.isNone
+
 /-! ### Class tables (method ids are the positions in `sigs`; the harness uses the same numbering)
 
 `miss` = the data set has missing outcomes (otherwise `missing_model` raises). -/
@@ -287,16 +292,20 @@ def ipmw : Cls := ⟨1, 0, [spec 0, fitS [0]]⟩
 /-- IPCW: slot 0 regression_models -/
 def ipcw : Cls := ⟨1, 0, [spec 0, fitS [0]]⟩
 
-/-- MonteCarloGFormula: slots 0 exposure_model, 1 outcome_model, 2 censoring_model, 3 add_covariate_model (one
-    label, added once: the method appends, it does not respecify) -/
-def monteCarlo : Cls := ⟨4, 0, [spec 0, spec 1, spec 2, spec 3, fitS [0, 1]]⟩
+/-- MonteCarloGFormula: slots 0 exposure_model, 1 outcome_model, 2 censoring_model, 3 add_covariate_model(label=1),
+    4 add_covariate_model(label=2).  `add_covariate_model` appends, it does not respecify: what is specified is the set
+    of *labelled* covariate models ("fit in the order from lowest to highest label"), one slot per label, each label
+    used at most once per object.  The canonical call list has the slots in label order whatever the order of the
+    calls: the result must not depend on the order in which the labelled models were added. -/
+def monteCarlo : Cls := ⟨5, 0, [spec 0, spec 1, spec 2, spec 3, spec 4, fitS [0, 1]]⟩
 
 /-- IterativeCondGFormula: slot 0 outcome_model -/
 def iterCond : Cls := ⟨1, 0, [spec 0, fitS [0]]⟩
 
 /-- the four cross-fit estimators (Single/Double Crossfit AIPTW/TMLE): slots 0 exposure_model, 1 outcome_model;
-    `summary` tests both models itself and prints results that are `None` before a fit -/
-def crossfit : Cls := ⟨2, 0, [spec 0, spec 1, fitS [0, 1], resG [0, 1]]⟩
+    `summary` tests both models itself and prints results that are `None` before a fit; `run_diagnostics` plots the
+    per-partition vectors (`None` before a fit) -/
+def crossfit : Cls := ⟨2, 0, [spec 0, spec 1, fitS [0, 1], resG [0, 1], resS]⟩
 
 def clsByName (name : String) (miss : Bool) : Option Cls :=
   match name with
